@@ -1002,7 +1002,11 @@ func (v *VResult) checkLeaf(rt *RT, op int, ii *InvokeInfo, g *MFn, l MLeaf, obs
 					want = append(want, "zero")
 					continue
 				}
-				want = append(want, fmt.Sprintf("f%d#%d/%s/%d", deco.ID, deco.OkExec, s.Path, e))
+				ee := e
+				if s.Rep {
+					ee = 0
+				}
+				want = append(want, fmt.Sprintf("f%d#%d/%s/%d", deco.ID, deco.OkExec, s.Path, ee))
 			}
 		}
 		sort.Strings(want)
@@ -1034,7 +1038,11 @@ func (v *VResult) checkLeaf(rt *RT, op int, ii *InvokeInfo, g *MFn, l MLeaf, obs
 					}
 					continue
 				}
-				key := fmt.Sprintf("f%d#%d/%s/%d", f.ID, f.OkExec, s.Path, e)
+				ee := e
+				if s.Rep {
+					ee = 0
+				}
+				key := fmt.Sprintf("f%d#%d/%s/%d", f.ID, f.OkExec, s.Path, ee)
 				if s.Zero || (e == 0 && s.ZeroFirst) {
 					key = "zero" // a member that is the zero value carries no token
 				}
@@ -1068,16 +1076,24 @@ func (v *VResult) checkLeaf(rt *RT, op int, ii *InvokeInfo, g *MFn, l MLeaf, obs
 	if ii.Zones.SoftDecorated {
 		return
 	}
-	cnt := map[string]int{}
+	cnt, allow := map[string]int{}, map[string]int{}
+	for _, k := range all {
+		allow[k]++
+	}
 	for _, k := range got {
 		cnt[k]++
-		if cnt[k] == 2 && k != "zero" {
-			v.add(CSoftDup, op, "%v soft group leaf %s contains %s twice", g, l.Path, k)
+		if cnt[k] == allow[k]+1 && k != "zero" {
+			v.add(CSoftDup, op, "%v soft group leaf %s contains %s %d times, its constructor contributes it %d times", g, l.Path, k, cnt[k], allow[k])
 		}
 	}
+	need := map[string]int{}
 	for _, k := range lower {
-		if cnt[k] == 0 {
-			v.add(CSoftLower, op, "%v soft group leaf %s (%v) lacks %s although its constructor ran before the Invoke or is required by a sibling field", g, l.Path, l.Key, k)
+		need[k]++
+	}
+	for _, k := range lower {
+		if cnt[k] < need[k] {
+			v.add(CSoftLower, op, "%v soft group leaf %s (%v) has %s %d time(s), want %d: its constructor ran before the Invoke or is required by a sibling field", g, l.Path, l.Key, k, cnt[k], need[k])
+			break
 		}
 	}
 }
